@@ -270,27 +270,38 @@ def r5(ctx, cfg):
     # (`.find(|c| c.denom == denom)` is rewritten into its loop by vlib/inline.py A9, so it and a hand-written
     # `for c in balance { if c.denom == denom { found = Some(c); break } }` are the same shape: the place where an element of
     # get_balance(..) is picked, and the conditions on that element under which it happens)
+    # what is put into the BalanceResponse: an element of get_balance(..) picked under `elem.denom == request.denom`
+    # (and nothing else about the element), or coin(0, denom)
     picks = []
-    for g in F.lexical(QUERY):
-        for b0, i0, st0 in g.stmts():
-            if st0["k"] == "assign" and st0["rv"].get("k") == "aggregate" and st0["rv"].get("adt") == "std::option::Option" and st0["rv"].get("variant") == "Some":
-                e0 = peel(P.operand(g, st0["rv"]["ops"][0], (b0, i0)))
-                if e0[0] == "bound" and e0[1] == "elem" and contains(e0[2], lambda x: x[0] == "call" and x[1] == B + "get_balance"):
-                    picks.append((g, b0, i0, e0))
-    ok = len(picks) == 1
+    zero_fallback = False
+    for b1, t1 in f.calls():
+        if t1["callee"]["key"].endswith("BalanceResponse::new") and t1["args"]:
+            l1 = q.local_of_operand(t1["args"][0])
+            for val, conds, site in (q.value_cases(P, f, l1) if l1 is not None else []):
+                for v in alts(peel(val)):
+                    v = peel(v)
+                    if v[0] == "bound" and v[1] == "elem" and contains(v[2], lambda x: x[0] == "call" and x[1] == B + "get_balance"):
+                        picks.append((v, conds, site))
+                    elif v[0] == "call" and v[1] == "cosmwasm_std::coin" and peel(v[2][0]) == ("const", "int", 0) and contains(v[2][1], lambda y: is_param_field(y, "request", "denom")):
+                        zero_fallback = True
+    ok = len(picks) >= 1
     d = "%d places pick an element of the balance" % len(picks)
-    if ok:
-        g, b0, i0, e0 = picks[0]
-        ec = [c[1] for e, c in q.conditions_at(P, F, g, b0) if c[0] == "bool" and any(contains(x, lambda y: y[0] == "bound" and y[1] == "elem") for x in c[1][1])]
+    for e0, conds, site in picks:
+        ec = [c[1] for e, c in conds if c[0] == "bool" and not q.is_derived(c) and any(contains(x, lambda y: y[0] == "bound" and y[1] == "elem") for x in c[1][1])]
+        # the conditions of `.filter(..)` adapters of the scan count as well
+        for nb, src in q.loops_yielding(P, f, e0):
+            ec += [c[1] for e, c in q.filter_conditions(P, F, src)]
         d = str([(p, [fmt(x)[:40] for x in a], pol) for p, a, pol in ec])
-        ok = len(ec) == 1
-        if ok:
+        ok1 = len(ec) == 1
+        if ok1:
             pred, args, pol = ec[0]
-            ok = pred == "eq" and pol is True and any(peel(x)[0] == "field" and peel(x)[2] == "denom" and same_origin(peel(x)[1], e0) for x in args) and \
+            ok1 = pred == "eq" and pol is True and any(peel(x)[0] == "field" and peel(x)[2] == "denom" and same_origin(peel(x)[1], e0) for x in args) and \
                 any(contains(x, lambda y: is_param_field(y, "request", "denom")) for x in args)
         # the scan runs over all entries, front to back
-        lp = q.loops_yielding(P, g, e0)
-        ok = ok and len(lp) == 1 and not q.chain_adapters(lp[0][1])
+        lp = q.loops_yielding(P, f, e0)
+        ok1 = ok1 and len(lp) == 1 and not [a0 for a0 in q.chain_adapters(lp[0][1]) if a0 != "filter"]
+        ok = ok and ok1
+    ok = ok and zero_fallback
     ctx.ob(R, QUERY, "Balance-selects-by-denom-equality", ok, "single-denomination balance is selected by %s" % d, fn=f, sample="find(|c| c.denom == denom)")
     dflt = q.lexical_calls(F, QUERY, "cosmwasm_std::coin")
     ok = False
